@@ -35,6 +35,7 @@ var Kinds = func() []kmodel.KindInfo {
 	k := []kmodel.KindInfo{
 		{Group: TestGroup, Version: "v1", Kind: "Widget", Namespaced: true, HasStatus: true},
 		{Group: TestGroup, Version: "v1", Kind: "Gadget", Namespaced: true, HasStatus: true},
+		{Group: TestGroup, Version: "v1", Kind: "Gizmo", Namespaced: true, HasStatus: true},
 		{Group: TestGroup, Version: "v1", Kind: "ClusterWidget", Namespaced: false, HasStatus: true},
 		{Group: "", Version: "v1", Kind: "ConfigMap", Namespaced: true},
 		{Group: "", Version: "v1", Kind: "Secret", Namespaced: true},
